@@ -82,6 +82,8 @@ type Recorder struct {
 	// SyncHook, when set, is invoked (outside the lock) before a sync takes
 	// effect; used as a schedule point by the concurrency drivers.
 	SyncHook func(name string)
+	// ReadHook, when set, is invoked (outside any lock) before a ReadAt copies: a gate between the reads of one call.
+	ReadHook func(name string, off int64, n int)
 }
 
 func NewRecorder() *Recorder {
